@@ -59,6 +59,7 @@ func init() {
 			g(rep, "BUFFER-PRESERVE", func() { ruleBUFFERPRESERVE(p, rep) })
 			g(rep, "STABLE-BATCH", func() { ruleSTABLEBATCH(p, rep) })
 			g(rep, "WAL-RELEASE-ON-FREE", func() { ruleWALRELEASEONFREE(p, rep) })
+			g(rep, "CHECKPOINT-COMPLETE", func() { ruleCHECKPOINTCOMPLETE(p, rep) })
 		},
 	})
 	register(&propertyDef{
@@ -96,6 +97,7 @@ func init() {
 			g(rep, "ORDER", func() { ruleORDER(p, rep, orderSet("ROLLBACK-ON-EVERY-FAILURE", "COMMITPOINT")) })
 			g(rep, "UNDO-JOURNAL", func() { ruleUNDOJOURNAL(p, rep) })
 			g(rep, "INV-FL", func() { ruleINVFL(p, rep) })
+			g(rep, "PRECOMMIT-NO-ALIAS", func() { rulePRECOMMITNOALIAS(p, rep) })
 		},
 	})
 	register(&propertyDef{
@@ -115,11 +117,12 @@ func init() {
 	register(&propertyDef{
 		id: "C09",
 		explain: "Decides lock pairing, lock order and guarded-by: (LOCKS) on every path of every exported root (Open, File.Close, Begin*, every Tx and Page method per role and lifecycle scenario, the background writer) each lock acquired is released and the per-exit API contract holds, split by error nil-ness; " +
-			"(LOCK-ORDER) acquisition edges are consistent with Reserved < Pending < Exclusive < internal mutexes, Exclusive only under Pending, Pending only under the writer lock; (LOCKSET) role-sensitive guarded-by analysis for data races; (RELEASE) the WaitGroup hand-off of the writer error. " +
-			"Not decided: condition-variable progress, fairness, user-level self-deadlock.",
+			"(LOCK-ORDER) acquisition edges are consistent with Reserved < Pending < Exclusive < internal mutexes, Exclusive only under Pending, Pending only under the writer lock; (LOCKSET) role-sensitive guarded-by analysis for data races; (WAKEUP) the many-waiter condition lock.shared is only woken by Broadcast and both release paths reach their wake-up; (RELEASE) the WaitGroup hand-off of the writer error. " +
+			"Not decided: fairness, user-level self-deadlock, the waiting predicates of lock.go beyond the wake-up discipline.",
 		run: func(p *Program, rep *Report, tier string) {
 			g(rep, "LOCKS", func() { ruleLOCKS(p, rep, nil, true) })
 			g(rep, "LOCKSET", func() { ruleLOCKSET(p, rep) })
+			g(rep, "WAKEUP", func() { ruleWAKEUP(p, rep) })
 			g(rep, "STICKY", func() { ruleSTICKY(p, rep) })
 		},
 	})
@@ -177,6 +180,7 @@ func init() {
 			g(rep, "LOCKS", func() { ruleLOCKS(p, rep, func(r lockRoot) bool { return r.name == "Open" || strings.HasPrefix(r.name, "File.Begin") }, true) })
 			g(rep, "ORDER", func() { ruleORDER(p, rep, orderSet("ORDER", "SLOT", "FINALIZE", "COMMIT-ERROR-PATH")) })
 			g(rep, "ERRDISC", func() { ruleERRDISC(p, rep, "", false) })
+			g(rep, "PRECOMMIT-NO-ALIAS", func() { rulePRECOMMITNOALIAS(p, rep) })
 		},
 	})
 	register(&propertyDef{
@@ -215,6 +219,7 @@ func init() {
 		run: func(p *Program, rep *Report, tier string) {
 			g(rep, "LOCKS", func() { ruleLOCKS(p, rep, func(r lockRoot) bool { return r.name == "Open" || r.name == "File.Close" }, false) })
 			g(rep, "FLOCK-OWNER", func() { ruleFLOCKOWNER(p, rep) })
+			g(rep, "FLOCK-NO-UNLINK", func() { ruleFLOCKNOUNLINK(p, rep) })
 		},
 	})
 }
